@@ -1,0 +1,11 @@
+//go:build !go1.20
+// +build !go1.20
+
+package cache
+
+import "sync"
+
+// deleteSame deletes the key, sync.Map of go versions before 1.20 can not tell whether the entry was replaced.
+func deleteSame(m *sync.Map, key interface{}, _ *TraitEntry) {
+	m.Delete(key)
+}
